@@ -167,10 +167,10 @@ FOURTH_PASS = {
  "C08": " Fourth pass: the cursor invariant is also proved on error returns of methods whose callers carry on after the error; the text handed to Scanner.init/Scan is the caller's parameter, never reassigned.",
  "C09": " Fourth pass: Executor.dir is restored on every path of ExecuteTo; FilesFromLastCheckpoint selects the last checkpoint.",
  "C11": " Fourth pass: values derived from the revision list are not used after the list was re-read.",
- "C12": " Fourth pass: LogError.Stmt is used only where it is known non-nil.",
+ "C12": " Fourth pass: LogError.Stmt is used only where it is known non-nil; every slice indexed in the history comparison is bounded by its own length (found D38).",
  "C13": " Fourth pass: every exit of the SQLite commit/rollback closures re-enables foreign keys; every identity decision over foreign-key violations uses all fields.",
  "C14": " Fourth pass: the deferred restore is called on every path of its closure; the MySQL/PostgreSQL Snapshot accepts a database only on paths that counted its schemas/tables.",
- "C15": " Fourth pass: no case-sensitive comparison under a case-insensitive guard on the same string; mysql.FormatType prints the time precision only under a non-zero guard.",
+ "C15": " Fourth pass: no case-sensitive comparison under a case-insensitive guard on the same string; mysql.FormatType prints the time precision only under a non-zero guard; a value-carrying attribute is written with its value (mysql.checkSpec: known finding D39).",
  "C16": " Fourth pass: plan options received are forwarded to PlanChanges.",
  "C17": " Fourth pass: scratch planner states inherit PlanOptions; a branch guarded by a comparison with a planner-state field writes that same field.",
  "C18": " Fourth pass: every executed statement gets its Change; no strings.Trim* cutset with letters or digits.",
